@@ -5,9 +5,10 @@ import fw
 
 SLEEP, LOCK, UNLOCK, ACQ, REL, CVWAIT, NOTIFY1, NOTIFYALL, BAR, PUT, GET = range(11)
 EXEC, DAEMON, ONEXIT, KILL, YIELD, JOIN, SUSPEND, RESUME = range(11, 19)
+ACQT = 19      # AcquireT s=A timeout=B/8 s (Semaphore::acquire_timeout); only C14's generator produces it
 NAMES = ["Sleep", "Lock", "Unlock", "Acquire", "Release", "CvWait", "NotifyOne", "NotifyAll", "BarWait", "Put", "Get",
-         "Exec", "Daemonize", "OnExit", "Kill", "Yield", "Join", "Suspend", "Resume"]
-TIMED = {SLEEP, PUT, GET, EXEC}
+         "Exec", "Daemonize", "OnExit", "Kill", "Yield", "Join", "Suspend", "Resume", "AcquireT"]
+TIMED = {SLEEP, PUT, GET, EXEC, ACQT}
 
 
 def platform():
@@ -26,7 +27,7 @@ def encode(p):
 
 def pretty(p):
     return {"mutexes": p["nm"], "sems": p["sems"], "condvars": p["nc"], "barriers": p["bars"], "mailboxes": p["nmb"],
-            "actors": [{"host": h, "ops": ["%s(%s)" % (NAMES[c], ",".join(str(x) for x in ((a, b) if c in (CVWAIT, PUT) else (a,)))) for c, a, b in ops]}
+            "actors": [{"host": h, "ops": ["%s(%s)" % (NAMES[c], ",".join(str(x) for x in ((a, b) if c in (CVWAIT, PUT, ACQT) else (a,)))) for c, a, b in ops]}
                        for h, ops in p["actors"]]}
 
 
@@ -172,7 +173,9 @@ def parse_obs(line):
     """-> dict(dl, end, actors=[(pc, status, [(i, r, clk)])], sems, tr=[(a,i)], ex=[(a,tag,failed,clk)]) or dict(crash=...)"""
     if not line.startswith("ok "):
         return {"crash": line}
-    head, acts, sem, tr, ht, ex, gx = [x.strip() for x in line.split("|")]
+    head, acts, sem, tr, ht, ex, gx = [x.strip() for x in line.split("|")][:7]
+    extra = [x.strip() for x in line.split("|")][7:]      # hx=: handled operations merged with the timer events
+    hx = [tuple(int(y) for y in x.split(".")) for f in extra if f.startswith("hx=") for x in f[3:].split(",") if x]
     h = dict(t.split("=") for t in head.split()[1:])
     actors = []
     for a in acts.split(";"):
@@ -191,7 +194,7 @@ def parse_obs(line):
         atf, clk = x.split("@")
         a, tag, failed = atf.split(".")
         exits.append((int(a), int(tag), int(failed), clk))
-    return {"dl": int(h["dl"]), "end": h["end"], "actors": actors, "sems": sems, "tr": trace, "ht": handled, "ex": exits, "gx": gx[len("gx="):]}
+    return {"dl": int(h["dl"]), "end": h["end"], "actors": actors, "sems": sems, "tr": trace, "ht": handled, "ex": exits, "gx": gx[len("gx="):], "hx": hx}
 
 
 def model_obs_of_impl(o):
